@@ -50,6 +50,34 @@ def gen(rng, tier):
             add("crash", "crash %s %s %d %d" % (kvs(olds), kvs(sets), min(i, 15), g), g % 6, 6)
     for g in range(0, 26 if tier == "quick" else 32):
         add("crashcfg", "crashcfg %d" % g, g % 6, 6)
+    # names at the file system's limit (NAME_MAX = 255): when the temp name does not fit, the Set fails before anything is
+    # written -- the key keeps what it had (it can only be absent), whatever the kill point; a Set that follows is not affected
+    def name(n):
+        return bytes(rng.choice(b"abcdefghijklmnopqrstuvwxyz0123456789") for _ in range(n))
+    for L in ([250, 251, 252, 255, 256] if tier == "quick" else [249, 250, 251, 252, 253, 254, 255, 256, 300]):
+        key, new = name(L), rb(rng, 9)
+        fits = L + 4 <= 255
+        olds = [(b"other", rb(rng, 7))] + ([(key, rb(rng, 5))] if fits else [])
+        for g in range(0, 7):
+            add("crash-longname", "crash %s %s %d %d" % (kvs(olds), kvs([(key, new)]), min(g, 5) if fits else 0, g), g, 6)
+        if not fits:
+            for g in range(0, 8):
+                add("crash-longname", "crash %s %s %d %d" % (kvs(olds), kvs([(key, new), (b"k", b"after")]), min(max(g - 1, 0), 5), g), max(g - 1, 0), 6)
+    for L in ([121, 122, 123, 124] if tier == "quick" else [120, 121, 122, 123, 124, 125, 150]):
+        nm, new = name(L), rb(rng, 32)
+        fits = 2 * L + 7 + 4 <= 255
+        olds = [(b"other", rb(rng, 32))] + ([(nm, rb(rng, 32))] if fits else [])
+        for g in range(0, 7):
+            add("crashdb-longname", "crashdb %s %s %d %d" % (kvs(olds), kvs([(nm, new)]), min(g, 5) if fits else 0, g), g, 6)
+    # deletes (one unlink) between sets: the deleted key is gone or still holds its value, never anything else
+    for fam, k1, k2 in (("crash", b"k", b"version"), ("crash", b"a:b", b"k"), ("crashdb", b"ctrl", b"other-ctrl")):
+        old, new = rb(rng, 32), rb(rng, 32)
+        olds = [(k1, old), (b"zz", rb(rng, 32))]
+        dl = "%s:DEL" % k1.hex()
+        for g in range(0, 7):
+            add(fam + "-delete", "%s %s %s,%s %d %d" % (fam, kvs(olds), dl, kvs([(k2, new)]), 1 + min(g, 5), g), g, 6)
+            add(fam + "-delete", "%s %s %s,%s %d %d" % (fam, kvs(olds), kvs([(k2, new)]), dl, min(g, 5) if g < 6 else 6, g), g, 6)
+        add(fam + "-delete", "%s %s %s %d %d" % (fam, kvs(olds), dl, 1, 0), 0, 6)
     # after the restart the application writes the key again (shorter, equal, longer, empty): whatever the interrupted
     # write left behind (a temp file with any content) must not show up in the value
     for new in ([rb(rng, 700), rb(rng, 9)] if tier == "quick" else [rb(rng, 700), rb(rng, 9), rb(rng, 4096), b"", rb(rng, 64)]):
@@ -88,7 +116,7 @@ def oracle(c, obs):
     olds, sets = dict(parse(toks[1])), parse(toks[2])
     new = {}
     for k, v in sets:
-        new.setdefault(k, []).append(v)
+        new.setdefault(k, []).append("nf" if v == "DEL" else v)
     if len(toks) > 5:
         # written again after the restart: exactly that value
         for k, v in parse(toks[5]):
